@@ -356,6 +356,62 @@ func runC06(cfg *vh.Config) error {
 		}
 	}
 	res.Notes = append(res.Notes, fmt.Sprintf("stage: after query %s", time.Since(t0)))
+
+	// ---- nested Any values with a codec built WithProtoToAny (last: a hang here must not starve the other streams).
+	// decodeAny decodes the payload as its declared type, which may hold an Any again: one decode per level is
+	// quadratic at worst; a second decode per level is 2^depth.  Depths ascending, so the first failure is the
+	// smallest input; the family stops at its first failure.
+	{
+		nestedAny := func(depth int, leaf string) []byte {
+			sb := &strings.Builder{}
+			for i := 0; i < depth; i++ {
+				sb.WriteString(`{"j5any":{"!type":"test.schema.v1.FullSchema","value":`)
+			}
+			sb.WriteString(leaf)
+			for i := 0; i < depth; i++ {
+				sb.WriteString(`}}`)
+			}
+			return []byte(sb.String())
+		}
+		full := byName["env_full"]
+		for _, fam := range []struct{ class, leaf, want string }{
+			{"nested any (WithProtoToAny), valid leaf", `{"sString":"leaf"}`, "ok"},
+			{"nested any (WithProtoToAny), faulty leaf", `{"sString":5}`, "err"},
+		} {
+			var maxT time.Duration
+			for _, depth := range []int{1, 2, 3, 4, 6, 8, 10, 12, 13, 14, 15, 16, 17, 18, 19, 20, 22, 24, 26, 28, 30, 40, 48} {
+				if tripped() || full == nil {
+					break
+				}
+				doc := nestedAny(depth, fam.leaf)
+				o := decodeJSONAny(full, doc)
+				res.Count("json-any:" + fam.class)
+				res.Count("json-any-outcome:" + o.Kind)
+				if o.Elapsed > maxT {
+					maxT = o.Elapsed
+				}
+				input := map[string]any{"target": full.Env.Root, "codec": "WithProtoToAny", "depth": depth, "bytes": len(doc), "json": short(doc), "class": fam.class}
+				failed := true
+				switch {
+				case o.Kind == "panic":
+					res.Fail(vh.Failure{Case: em.caseNo, Stream: "json-any", Sig: fmt.Sprintf("C06 JSONToProto (WithProtoToAny) panics in %s: %s", o.Site, panicClass(o.Panic)), Clause: "decoding never panics", Input: input, Got: o.Panic})
+				case o.hard():
+					res.Fail(hardFailure("C06", "JSONToProto (WithProtoToAny)", em.caseNo, "json-any", input, o))
+				case o.Elapsed > 1*time.Second+time.Duration(len(doc))*50*time.Microsecond:
+					res.Fail(vh.Failure{Case: em.caseNo, Stream: "json-any", Sig: "C06 JSONToProto (WithProtoToAny) time not bounded by input size: nested Any values", Clause: "decoding returns in time bounded by the input size", Input: input, Got: o.Elapsed.String()})
+				case o.Kind != fam.want:
+					res.Fail(vh.Failure{Case: em.caseNo, Stream: "json-any", Sig: "C06 JSONToProto (WithProtoToAny) nested Any values: " + fam.want + " expected, got " + o.Kind, Clause: "decoding returns success or an error", Input: input, Got: o.Kind + " " + o.Err})
+				default:
+					failed = false
+				}
+				em.caseNo++
+				if failed {
+					break
+				}
+			}
+			res.Notes = append(res.Notes, fmt.Sprintf("max wall time, %s: %s", fam.class, maxT))
+		}
+	}
 	if tripped() {
 		res.Notes = append(res.Notes, fmt.Sprintf("the run stopped issuing calls after %d calls that did not return (killed worker processes); the remaining inputs were not executed", maxHard))
 	}
